@@ -4,7 +4,7 @@
    allocated scopes that are neither a task group's own scope nor a task handle's scope, AExit on such scopes
    or when it is rejected by its guards anyway, AGroupEnter on allocated groups, AFinish only at the task's
    base scope, ARun (HWake t f) only for f = the task's waiter). *)
-From AV Require Import Base Machine ScopeFrames DeliverInv TreeInv DeliverAlive PotentialInv TreeStep KernelInv DeliverThms CycleThms ActWalk ActThms CycleMore.
+From AV Require Import Base Machine ScopeFrames DeliverInv TreeInv DeliverAlive PotentialInv TreeStep KernelInv DeliverThms CycleThms ActWalk ActThms CycleMore AuditWitness.
 
 (* I4: a cancelled, hosted scope that some live task still reaches (walk from the task's current scope up the
    parent links through scopes that are neither shielded nor cancelled) has its delivery callback scheduled *)
@@ -138,7 +138,9 @@ Print Assumptions C03_delivery_then_step_raises.
                   HDeliver, HTaskDone, HSleepDone, HTimeout of anything, and HStep/HWake of another task whose
                   frame is simple_ctl (decision point, checkpoint, checkpoint_if_cancelled, sleep, handle wait,
                   done), all inside the op domain.
-   Excluded thereby: resumptions of other tasks' library frames that run scope exits or group logic (task
+   The two cycles consist of head-of-queue runs ONLY: no task makes any API call, no time passes (no tick), there
+   is no native or external cancel and no new root task inside them.
+   Excluded in addition: resumptions of other tasks' library frames that run scope exits or group logic (task
    start CNew, CYield (YShield _), CAexitWait, CAexitCk, CStartWait, CStartJoin), any HStep of t, and a wake-up
    of t while f is still pending.
    Statement: t suspended on the pending future f with no request recorded, reaching the cancelled hosted
@@ -199,7 +201,7 @@ Theorem C03_ckif_spin_nonvacuous :
 Proof. exact spin_premises. Qed.
 Print Assumptions C03_ckif_spin_nonvacuous.
 
-(* ---- bounded response under ARBITRARY concurrent activity (audit C03 item 1) ----
+(* ---- bounded response under concurrent activity of the other tasks, within the op_ok domain (audit C03 item 1) ----
    wcyc n s ops s' = one event-loop iteration from s to s': exactly n callbacks are run, each one the head of the
                      ready queue at that moment (or the queue runs dry), with any number of other ops in between
    wop t f s o     = o is an act of somebody else (other_act: any API call of a task other than t - enter, exit,
@@ -214,8 +216,9 @@ Print Assumptions C03_ckif_spin_nonvacuous.
    cancelled hosted scope c at the boundary between two iterations.  Then within this iteration and the next
    t's wake-up is run and raises a cancellation - unless f was completed with a result or an exception first -
    or at some state of the window t is not effectively cancelled any more (somebody shielded it).
-   Not covered as window ops: acts of t itself (it is suspended), a native Task.cancel() of t, running a
-   callback that is not at the head of the queue. *)
+   Every window op must satisfy op_ok (the well-used domain of TreeStep.ops_ok).  Not covered as window ops: acts
+   of t itself (it is suspended), a native Task.cancel() of t, running a callback that is not at the head of the
+   queue.  Hypotheses on t at the start: no request recorded (k_must = false) and started (k_started = true). *)
 Theorem C03_cancel_latency_any_activity : forall t f c s ops1 ops2 s1 s2,
   reach_ok s -> running s <> Some t ->
   s_cancelled (scopes s c) = true -> s_host (scopes s c) <> None -> reaches s t c ->
@@ -234,7 +237,7 @@ Print Assumptions C03_cancel_latency_any_activity.
    grp_ops1 = [ARun (HWake 2 8); AFinish 2 0; ARun (HWake 1 9); ARun (HDeliver 1)]   (child 2 gets the cancellation
    and finishes - an API-level act of another task; the host is resumed inside __aexit__ with the cancellation;
    the delivery callback cancels child 3's sleep), grp_ops2 = [ARun (HTaskDone 2); ARun (HWake 3 11); ARun (HDeliver 1)].
-   (cycle_ok of C03_cancel_latency_le_2_cycles is false here.) *)
+   cycle_ok of C03_cancel_latency_le_2_cycles is false here (C03_cancel_latency_any_activity_beyond_cycle_ok below). *)
 Theorem C03_cancel_latency_any_activity_nonvacuous :
   let s := final step init grp_pre in
   reach_ok s /\ running s <> Some 3 /\ s_cancelled (scopes s 1) = true /\ s_host (scopes s 1) <> None /\
@@ -253,9 +256,18 @@ Theorem C03_cancel_latency_any_activity_nonvacuous_window :
 Proof. exact grp_wok0. Qed.
 Print Assumptions C03_cancel_latency_any_activity_nonvacuous_window.
 
+(* that witness lies outside the FIFO theorem: the second head run resumes the host inside TaskGroup.__aexit__
+   (frame CAexitWait, not simple_ctl), and AFinish 2 0 is an API call *)
+Theorem C03_cancel_latency_any_activity_beyond_cycle_ok :
+  ~ cycle_ok 3 11 (length (ready (final step init grp_pre))) (final step init grp_pre).
+Proof. exact grp_cycle_ok_fails. Qed.
+Print Assumptions C03_cancel_latency_any_activity_beyond_cycle_ok.
+
 (* ---- a plain checkpoint() under the FIFO loop (audit C03 item 2) ----
    cycle_okc t n s = each of the next n head runs up to t's own step is a covered callback of somebody else
-   (bystander_y: HDeliver/HTaskDone/HSleepDone/HTimeout, HStep/HWake of another task with a simple_ctl frame).
+   (bystander_y: HDeliver/HTaskDone/HSleepDone/HTimeout, HStep/HWake of another task with a simple_ctl frame);
+   pure FIFO head runs: no API call by anybody, no tick, no native/external cancel in between.  Without this
+   hypothesis the statement is false (a task resumed in between may raise a shield).
    The task sits in the bare yield of checkpoint() (no waiter, its step queued) and reaches the cancelled hosted
    scope c; no step of t is queued in front of position |pre| and the delivery callback of c is queued in front
    of it (or a request is already recorded).  Then the first step of t in this iteration raises the cancellation.
@@ -287,9 +299,11 @@ Print Assumptions C03_checkpoint_raises_fifo_nonvacuous.
                   the head-of-queue callback unless it resumes t; after that step, with fp the future t is parked
                   on: wok0 t fp (the window of C03_cancel_latency_any_activity)
    GoalN t s ops = a resumption of t in the run raised a cancellation (or the future it was parked on was completed
-                  with a value first), or at some state t is done, or at some state t is not effectively cancelled
+                  with a result or an exception first), or at some state t has an outcome (k_done <> None: the
+                  statement does not say which), or at some state t is not effectively cancelled
    A freshly spawned task (frame CNew, first step queued) reaches the cancelled hosted scope c at an iteration
-   boundary.  Within three iterations of arbitrary activity of the others GoalN holds: AnyIO deliveries skip a task
+   boundary.  Within three iterations of activity of the others (window ops as in wop: op_ok each, no native cancel
+   of t itself, callbacks only from the head of the queue) GoalN holds: AnyIO deliveries skip a task
    that has not started, its first step runs in iteration 1 (a request recorded before ends it without running),
    entering its handle scope keeps it under a cancelled scope (the group scope's, or its own handle scope's if
    that was cancelled) unless a shield is raised, and the latency theorem covers iterations 2 and 3. *)
@@ -313,11 +327,12 @@ Print Assumptions C03_new_task_cancelled.
    nt_ops3 = [ARun (HWake 1 7); ARun (HWake 2 6); ARun (HDeliver 1)] *)
 Theorem C03_new_task_cancelled_nonvacuous :
   let s := final step init [ANewRoot; AGroupNew 1; AGroupEnter 1 1; ACancel 1 1; ASpawn 1 1] in
-  reach_ok s /\ running s <> Some 2 /\ k_ctl (tasks s 2) = CNew /\ k_started (tasks s 2) = false /\
-  k_waiter (tasks s 2) = None /\ k_done (tasks s 2) = None /\ In (HStep 2) (ready s) /\ 2 < ntask s /\
-  s_cancelled (scopes s 1) = true /\ reaches s 2 1 /\ k_must (tasks s 2) = false /\
-  wokn 2 s nt_ops /\ exists s', wcyc (length (ready s)) s nt_ops s'.
-Proof. exact nt_premises. Qed.
+  s_host (scopes s 1) <> None /\
+  (reach_ok s /\ running s <> Some 2 /\ k_ctl (tasks s 2) = CNew /\ k_started (tasks s 2) = false /\
+   k_waiter (tasks s 2) = None /\ k_done (tasks s 2) = None /\ In (HStep 2) (ready s) /\ 2 < ntask s /\
+   s_cancelled (scopes s 1) = true /\ reaches s 2 1 /\ k_must (tasks s 2) = false /\
+   wokn 2 s nt_ops /\ exists s', wcyc (length (ready s)) s nt_ops s').
+Proof. exact nt_premises_host. Qed.
 Print Assumptions C03_new_task_cancelled_nonvacuous.
 
 Theorem C03_new_task_cancelled_nonvacuous_window :
